@@ -146,7 +146,7 @@ def run(tier, seed, replay=None):
         scns = [{"conf": payload["trace"]["conf"], "steps": [{k: s[k] for k in ("cmd", "arg", "flag", "conf")} for s in payload["trace"]["steps"] if s["cmd"] != "fixcwd"], "src": "replay"}]
         mc = {"states": 0, "distinct": 0}
     else:
-        mc = tlc.model_check(SPEC, cfg_text=cfg_text, coverage=True, timeout=3000 if tier == "thorough" else 600)
+        mc = tlc.model_check(SPEC, cfg_text=cfg_text, coverage=(tier == "thorough"), timeout=3000 if tier == "thorough" else 900)
         if mc.get("never_taken"):
             raise tlc.TLCError(f"vacuity: actions never taken in {SPEC}: {mc['never_taken']}")
         # the model must be strong enough to see each recorded deviation
